@@ -76,17 +76,17 @@ def scenarios(ctx):
         out.append((2, "XO", 2, ("0", "1")))
     else:
         for k in one:
-            for progs in (("0", "0"), ("00", "0"), ("s0", "0"), ("0s", "s"), ("s", "s")):
-                out.append((1, k + "O", 3, progs))
-            out.append((1, k + "O", 2, ("0", "0", "0")))
-            out.append((1, k + "O", 2, ("s", "0", "00")))
+            out.append((1, k + "O", 3, ("0", "0")))
+            for progs in (("00", "0"), ("s0", "0"), ("0s", "s"), ("s", "s")):
+                out.append((1, k + "O", 2, progs))
+            out.append((1, k + "O", 2 if k in "OF" else 1, ("0", "0", "0")))
+            out.append((1, k + "O", 1, ("s", "0", "00")))
         two = ["O", "F", "R", "X", "G"]
         for a in two:
             for b in two:
                 out.append((2, a + b, 2, ("0", "1")))
-                out.append((2, a + b, 2, ("01", "10")))
+                out.append((2, a + b, 1, ("01", "10")))
                 out.append((2, a + b, 1, ("0", "1", "0")))
-                out.append((2, a + b, 1, ("01", "1", "0")))
     return out
 
 
@@ -247,7 +247,7 @@ def run(ctx):
     tot = {"executions": 0, "decisions": 0, "distinct": 0, "crashes": 0}
     maxdec = 0
     infos = set()
-    for sc, r in pool.pmap(work, [[s] for s in scs], contain_crashes=False, item_timeout=3000):
+    for sc, r in pool.pmap(work, [[s] for s in scs], contain_crashes=False, item_timeout=7200):
         if isinstance(r, pool.WorkerError):
             raise InfraError(r.tb)
         for k in tot:
